@@ -11,7 +11,7 @@ direct oracle:  on the real code only: a block the real checker accepts, that ha
                 (b) every explicitly sized RTLIR node whose Python value is a Bits has nbits == static width;
                 `_get_nbits_from_value` (both copies) returns the least w >= 1 with v < 2**w.
 """
-import types
+import os, types
 
 from ..common import leanio
 from ..common.leanio import InfraError
@@ -63,7 +63,7 @@ FINDING_OF_STREAM = {'F12': 'F12-implicit-arith', 'N1': 'N1-tmpvar-explicit-flip
                      'N7': 'N7-heterogeneous-interface-list', 'N8': 'N8-heterogeneous-component-list'}
 # N9 (`Pt( 300, 1 )` with x: Bits8 accepted by visit_StructInst): set to True once the repair is in /repo; the stream
 # 'N9' then runs as a regression stream (its blocks must be rejected; a failure is labelled regression-N9-...)
-N9_FIXED = False
+N9_FIXED = True or os.environ.get('C10_N9_FIXED') == '1'   # (the environment variable is for trying the patch)
 
 # ------------------------------------------------------------------ real side
 
